@@ -123,3 +123,12 @@ var (
 	VerifElemAligns     = elemAligns
 	VerifArrayElemAlign = arrayElemAlign
 )
+
+// VerifDecompressCap exposes decompressCap (initial capacity of a decompression buffer).
+var VerifDecompressCap = decompressCap
+
+// VerifTOASTReaderSetChunks stores an explicit chunk list for a TOAST relation in the reader's
+// (unexported) chunk map, as LoadTOASTTable does with the chunks read from a heap file.
+func VerifTOASTReaderSetChunks(r *TOASTReader, toastRelID uint32, chunks []TOASTChunk) {
+	r.chunks[toastRelID] = chunks
+}
